@@ -21,6 +21,7 @@ type balanceCache struct {
 	mu          sync.Mutex
 	expireAfter time.Duration
 	cache       map[store.Account]balanceItem
+	version     uint64           // Incremented by every Set and Reset
 	nowFn       func() time.Time // For testing override
 }
 
@@ -36,11 +37,18 @@ func (b *balanceCache) Reset(expireAfter time.Duration) {
 	defer b.mu.Unlock()
 	b.expireAfter = expireAfter
 	b.cache = nil
+	b.version++
 }
 
 func (b *balanceCache) Set(account store.Account, amount *big.Int) {
 	b.mu.Lock()
 	defer b.mu.Unlock()
+	b.set(account, amount)
+}
+
+// set must be called with the lock held.
+func (b *balanceCache) set(account store.Account, amount *big.Int) {
+	b.version++
 	if b.cache == nil {
 		b.cache = map[store.Account]balanceItem{}
 	}
@@ -68,6 +76,7 @@ func (b *balanceCache) Get(account store.Account) (*big.Int, error) {
 		delete(b.cache, account)
 	}
 	getter := b.Getter
+	version := b.version
 	b.mu.Unlock()
 
 	// Miss (outside of cache lock)
@@ -79,6 +88,18 @@ func (b *balanceCache) Get(account store.Account) (*big.Int, error) {
 	if err != nil {
 		return nil, err
 	}
-	b.Set(account, val)
+
+	b.mu.Lock()
+	defer b.mu.Unlock()
+	if b.version != version {
+		// The cache was written or reset while the getter was out: what it
+		// brings back may be older than that (a settlement, an event) and
+		// must not replace it.
+		if r, ok := b.cache[account]; ok && (r.expire.IsZero() || b.now().Before(r.expire)) {
+			return r.value, nil
+		}
+		return val, nil
+	}
+	b.set(account, val)
 	return val, nil
 }
